@@ -171,6 +171,61 @@ def drive_apply(doms, form):
     return r
 
 
+def drive_apply_hist(doms, form, how):
+    """apply, then the weights are replaced (assignment) or updated in place, then apply again: apply reads the
+    weights the factor has NOW.  Two `apply` records, one per phase."""
+    import torch
+    from fggs.factors import FiniteFactor
+    shape = [len(d['vals']) for d in doms]
+    n = 1
+    for s in shape:
+        n *= s
+    w2 = [3 * (n - i) + 1 for i in range(n)] if how == 'assign' else [2 * (i + 1) for i in range(n)]
+    rs = [{'k': 'apply', 'doms': doms, 'w': list(range(1, n + 1)), 'app': [], 'out': 'ok', 'tag': ['apply', form, 'hist_before']},
+          {'k': 'apply', 'doms': doms, 'w': w2, 'app': [], 'out': 'ok', 'tag': ['apply', form, 'hist_after_' + how]}]
+    try:
+        f = FiniteFactor([mkdom(d) for d in doms], weights_of(shape, form))
+        for phase, r in enumerate(rs):
+            if phase == 1:
+                if how == 'assign':
+                    t = torch.tensor(w2, dtype=torch.get_default_dtype()).reshape(shape)
+                    f.weights = t.tolist() if form == 'list' and not (0 in shape and len(shape) > 1) else t
+                else:
+                    f.weights.physical.mul_(2)
+            for vals in itertools.product(*[d['vals'] for d in doms]):
+                x = f.apply([py_of(d, v) for d, v in zip(doms, vals)])
+                r['app'].append([list(vals), snap_int(float(x))])
+    except Exception as e:  # noqa
+        rs[1]['out'] = 'raise:' + type(e).__name__
+    return rs
+
+
+def drive_faceq_near(doms, rng, dtype_name):
+    """two factors over the same domains whose weights differ by one unit of 2^-20 in one entry (or not at all):
+    equality is by the exact weights.  Weights are recorded in units of 2^-20."""
+    import torch
+    from fggs.factors import FiniteFactor
+    from fggs.indices import PatternedTensor
+    sh = [len(d['vals']) for d in doms]
+    n = __import__('math').prod(sh)
+    U = 1 << 20
+    w1 = [rng.choice([0, 1, 5]) * U for _ in range(n)]
+    w2 = list(w1)
+    differ = n > 0 and rng.random() < 0.7
+    if differ:
+        w2[rng.randrange(n)] += 1
+    dt = getattr(torch, dtype_name)
+    r = {'k': 'faceq', 'f1': {'doms': doms, 'w': w1}, 'f2': {'doms': doms, 'w': w2}, 'eq': False, 'out': 'ok', 'tag': ['faceq', 'near', dtype_name]}
+    try:
+        mk = lambda w, pat: (PatternedTensor if pat else (lambda t: t))(torch.tensor([x / U for x in w], dtype=torch.float64).to(dt).reshape(sh))
+        f1 = FiniteFactor([mkdom(d) for d in doms], mk(w1, rng.random() < 0.5))
+        f2 = FiniteFactor([mkdom(d, 'tuple') for d in doms], mk(w2, rng.random() < 0.5))
+        r['eq'] = bool(f1 == f2)
+    except Exception as e:  # noqa
+        r['out'] = 'raise:' + type(e).__name__
+    return r
+
+
 def drive_faceq(doms1, base1, doms2, base2, form1, form2):
     from fggs.factors import FiniteFactor
     sh1, sh2 = [len(d['vals']) for d in doms1], [len(d['vals']) for d in doms2]
@@ -256,6 +311,13 @@ def run(tier, seed):
             b = a if rng.random() < 0.5 else rng.choice(pool)
             cases.append(drive_faceq(a, rng.choice([1, 1, 2]), b, rng.choice([1, 1, 2]),
                                      rng.choice(['list', 'tensor', 'patterned']), rng.choice(['list', 'tensor', 'patterned'])))
+        nonempty = [ds for ds in pool if ds and all(len(d['vals']) > 0 for d in ds)]
+        for ds in nonempty:
+            for form in ('list', 'tensor', 'patterned'):
+                for how in ('assign', 'inplace'):
+                    cases.extend(drive_apply_hist(ds, form, how))
+        for j in range(150 if tier == 'quick' else 1500):
+            cases.append(drive_faceq_near(rng.choice(nonempty + [[]]), rng, 'float32' if j % 2 else 'float64'))
         verdicts, st, tr, _ = judge_batch(work / 'judge', 'Trace_Domains', cases, per_shard_min=500)
         o.states += st
         o.transitions += tr
